@@ -270,7 +270,7 @@ mod verif_kani {
             connection_id: ConnectionId::new(0), action_placeholder: AnnounceActionPlaceholder::Announce, transaction_id: TransactionId::new(kani::any()),
             info_hash: InfoHash([0; 20]), peer_id: PeerId(kani::any()), bytes_downloaded: NumberOfBytes::new(0), bytes_left: NumberOfBytes::new(kani::any()),
             bytes_uploaded: NumberOfBytes::new(0), event: ev, ip_address: Ipv4AddrBytes([0; 4]), key: PeerKey::new(0),
-            peers_wanted: NumberOfPeers::new(kani::any()), port: Port(kani::any::<u16>().into()),
+            peers_wanted: NumberOfPeers::new(1), port: Port(kani::any::<u16>().into()),
         }
     }
 
@@ -279,11 +279,15 @@ mod verif_kani {
     #[kani::proof] #[kani::unwind(22)]
     #[kani::stub(crossbeam_channel::Sender::try_send, try_send_rec)]
     fn tally_announce_small_v4() {
-        let mut pm = PeerMap::Small(any_small::<Ipv4AddrBytes>());
+        // inline map with at most ONE stored entry (enough for every case of the tally contract: no entry / same key same id /
+        // same key other id / other key)
+        let mut sm = SmallPeerMap(ArrayVec::new());
+        if kani::any() { sm.0.push((any_key::<Ipv4AddrBytes>(), any_peer())); }
+        let mut pm = PeerMap::Small(sm);
         let mut config = Config::default();
         config.statistics.peer_clients = true;
-        let (sender, receiver) = crossbeam_channel::bounded::<StatisticsMessage>(1);
-        std::mem::forget(receiver);
+        // never used (try_send is replaced by the recorder) and never dropped: an all-zero value (flavor tag 0 + null counter pointer) is enough
+        let sender: Sender<StatisticsMessage> = unsafe { std::mem::zeroed() };
         let mut rng = <SmallRng as rand::SeedableRng>::seed_from_u64(1);
         let request = any_request();
         let ip = Ipv4AddrBytes(kani::any());
